@@ -601,6 +601,9 @@ namespace AIToolbox {
         private:
             size_t S;
             LP lp_;
+            // Common power-of-two factor applied to every hyperplane of the
+            // current LP (0 = not chosen yet), see addOptimalRow().
+            double scale_ = 0.0;
     };
 }
 
